@@ -516,6 +516,28 @@ func c16History(k *fw.K, B, D, O int) {
 	tens := []tensor.Tensor{rx, *fresh[0].Value, *fresh[1].Value}
 	names := []string{"input", "Weight", "Bias"}
 	allAvg, anyMismatch := true, ""
+	// The layer output is computed in floating point on both sides: each y[b][o] carries a rounding error of at most
+	// delta = (D+2) ulps of |W|*sum_d|x| + |B| (the order of the D additions is the implementation's choice). Every head here has a
+	// derivative that is 2-Lipschitz or better in y (the exact-fit heads have the residual itself as derivative), so an error of delta in
+	// y moves dW[o] by at most 2*delta*|g|*sum_d|x| per row, dB[o] by 2*delta*|g| per row and dx[b][d] by 2*delta*|g|*|W| per unit.
+	// For the layer sizes of most cases (D <= 7) this is 1e-12 and changes nothing; for a row of 1023 features it is what a
+	// cancelled residual is worth (false alarm at thorough seed 41, DESIGN 6.18).
+	fwdTol := [3]float64{}
+	{
+		sax, wmax, bmax, gmax := 0., maxAbs(curW), maxAbs(curB), maxAbs(g)
+		for b := 0; b < B; b++ {
+			row := 0.
+			for d := 0; d < x.Shape[1]; d++ {
+				row += math.Abs(x.Data[b*x.Shape[1]+d])
+			}
+			sax = math.Max(sax, row)
+		}
+		delta := 2.3e-16 * float64(x.Shape[1]+2) * (wmax*sax + bmax)
+		if head == 6 {
+			gmax *= 4 // 3*y + sin(y): slope up to 4
+		}
+		fwdTol = [3]float64{2 * delta * gmax * wmax * float64(O), 2 * delta * gmax * sax * float64(B), 2 * delta * gmax * float64(B)}
+	}
 	for i, t := range tens {
 		gr := t.Gradient()
 		if i == 0 && !trackX {
@@ -534,12 +556,12 @@ func c16History(k *fw.K, B, D, O int) {
 			k.Failf("gradient of %s has shape %v, the tensor has %v (%v)", names[i], got, xs[i].Shape, err)
 			return
 		}
-		if e := gradClose(got, want[i]); e != nil {
+		if e := rt.CompareRef(got, want[i], 1e-10*(1+maxAbs(want[i]))+fwdTol[i], 1e-9, nil, 0); e != nil {
 			if anyMismatch == "" {
 				anyMismatch = fmt.Sprintf("gradient of %s: %v", names[i], e)
 			}
 		}
-		if gradClose(got, avg[i]) != nil {
+		if rt.CompareRef(got, avg[i], 1e-10*(1+maxAbs(avg[i]))+fwdTol[i], 1e-9, nil, 0) != nil {
 			allAvg = false
 		}
 	}
